@@ -721,6 +721,9 @@ def run_case(contract, case, tier="quick", known=None, do_crosscheck=True, seed=
         if outcome.kind == "unsupported":
             res.unsupported.append("path %d: %s" % (pi, outcome.value))
             continue
+        if outcome.kind == "raise" and type(outcome.exc).__name__ == "StubAttributeError":
+            res.unsupported.append("path %d: the contract's stub is incomplete for the code as it now is: %s" % (pi, outcome.exc))
+            continue
         live += 1
         obls = []
         for ob in path.obligations:
